@@ -84,6 +84,7 @@ func failingOps() []Step {
 		{Op: "kv.check-index", Key: "verif/never-written", Idx: "7"},
 		{Op: "kv.get", Key: "verif/never-written"},
 		{Op: "kv.cas", Key: "verif/guard", Val: "x", Idx: "future"},
+		{Op: "kv.delete-cas", Key: "verif/guard", Idx: "future"},
 		{Op: "kv.check-session", Key: "verif/guard", Sess: SessionUUID(999)},
 		{Op: "service.get", Node: "verif-no-such-node", SvcID: "nope"},
 		{Op: "node.get", Node: "verif-no-such-node"},
@@ -294,6 +295,14 @@ func (C05) execute(p *Plan, r *simkit.Run) *simkit.Violation {
 	fops := failingOps()
 	for pos := 0; pos <= len(txn.Ops); pos++ {
 		f := fops[(pos+len(prefix))%len(fops)]
+		if f.Op == "kv.delete-cas" {
+			// a stale delete of a key that an earlier op of the transaction removed succeeds (nothing to delete)
+			for _, o := range txn.Ops[:pos] {
+				if (o.Op == "kv.delete-tree" && strings.HasPrefix(f.Key, o.Key)) || ((o.Op == "kv.delete" || o.Op == "kv.delete-cas") && o.Key == f.Key) {
+					f = fops[0]
+				}
+			}
+		}
 		variant := Step{Op: "txn"}
 		variant.Ops = append(variant.Ops, txn.Ops[:pos]...)
 		variant.Ops = append(variant.Ops, f)
